@@ -3,6 +3,7 @@ deep (iteratively executed) recursion, chains and diamonds; compiled with the re
 compiler, executed through concertina_lib.ExecuteLogicaProgram with a recording,
 counting runner on a real connection.  Also the SQL-level reader/writer analysis."""
 import copy
+import os
 import re
 import sqlite3
 
@@ -27,6 +28,8 @@ def gen_program(rng):
             if n not in used:
                 used.add(n)
                 return n
+    if rng.random() < LOOPS_SHARE:
+        return gen_loops(rng, fresh)
     lines = ['@Engine("sqlite");']
     avail = []
     preds = []
@@ -114,6 +117,94 @@ def gen_program(rng):
     return {'text': '\n'.join(lines) + '\n', 'preds': preds, 'request': request}
 
 
+LOOPS_SHARE = 0.3
+# Finding (hand-written @Iteration in the default, two-halves mode): an outside input
+# read only by members of the SECOND half of the member list is not waited for
+# (Concertina.SortActions schedules the whole group once its first member is ready;
+# UnderstandIterations spreads outside requirements only within each half).  Default:
+# the generator gives every such input to a first-half member too and counts it.
+# VERIF_C14_INCLUDE=lower_ext generates the class.
+EXCLUDE_LOWER_EXT = 'lower_ext' not in os.environ.get('VERIF_C14_INCLUDE', '').split(',')
+
+
+def gen_loops(rng, fresh):
+    """Hand-written @Iteration loops (docs: @Iteration(It, predicates: [..],
+    repetitions: n) over grounded predicates, the last member written back into the
+    table of the loop's seed with @Ground(Last, Seed)): 1-3 counter loops of 2 or 4
+    members (or 3 in mode "diamond"); a later loop reads the RESULT of an earlier one
+    directly or through a plain grounded predicate; readers outside the loops."""
+    lines = ['@Engine("sqlite");']
+    preds = []
+    results = []           # predicates whose value later statements may read
+    nloops = rng.choice((1, 2, 2, 2, 3))
+    plain_results = []
+    excluded = []
+    for li in range(nloops):
+        seed = fresh()
+        k, mode = rng.choice(((2, None), (2, None), (4, None), (3, 'diamond')))
+        members = [fresh() for _ in range(k)]
+        lines.append('@Ground(%s);' % seed)
+        lines.append('%s() = %d;' % (seed, rng.randint(0, 3)))
+        preds.append({'name': seed, 'kind': 'loop_seed', 'sources': []})
+        # which members read an earlier result
+        readers = {}
+        if results and rng.random() < 0.85:
+            for m in rng.sample(members, rng.randint(1, len(members))):
+                readers[m] = rng.choice(results[-2:])
+        if mode is None and EXCLUDE_LOWER_EXT:
+            upper, lower = members[:k // 2], members[k // 2:]
+            for m in lower:
+                if m in readers and readers[m] not in [readers.get(u) for u in upper]:
+                    excluded.append('flat_iteration_second_half_has_own_outside_input')
+                    free = [u for u in upper if u not in readers]
+                    if free:
+                        readers[free[0]] = readers[m]
+                    else:
+                        del readers[m]
+        prev = seed
+        for j, m in enumerate(members):
+            last = j == len(members) - 1
+            lines.append('@Ground(%s%s);' % (m, (', ' + seed) if last else ''))
+            rhs = '%s() + %d' % (prev, rng.randint(1, 2))
+            if m in readers:
+                rhs += ' + %s()' % readers[m]
+            lines.append('%s() = %s;' % (m, rhs))
+            preds.append({'name': m, 'kind': 'loop_member',
+                          'sources': [prev] + ([readers[m]] if m in readers else [])})
+            prev = m
+        it = 'It' + fresh()
+        R = rng.randint(2, 5)
+        lines.append('@Iteration(%s, predicates: [%s], repetitions: %d%s);' % (
+            it, ', '.join(members), R, ', mode: "diamond"' if mode else ''))
+        results.append(members[-1])
+        if rng.random() < 0.35:
+            # a plain statement consuming the loop's result
+            mid = fresh()
+            if rng.random() < 0.7:
+                lines.append('@Ground(%s);' % mid)
+            lines.append('%s() = %s() * 2;' % (mid, members[-1]))
+            preds.append({'name': mid, 'kind': 'loop_reader', 'sources': [members[-1]]})
+            if rng.random() < 0.5:
+                results.append(mid)
+            plain_results.append(mid)
+    final = fresh()
+    used = list(results)
+    rng.shuffle(used)
+    used = used[:rng.randint(1, len(used))]
+    if results[-1] not in used and rng.random() < 0.8:
+        used.append(results[-1])
+    lines.append('%s(%s);' % (final, ', '.join(
+        'c%d: %s()' % (i, r) for i, r in enumerate(used))))
+    preds.append({'name': final, 'kind': 'plain', 'sources': used})
+    request = [final]
+    extra = [p['name'] for p in preds if p['kind'] in ('loop_seed', 'loop_reader')]
+    rng.shuffle(extra)
+    request += extra[:rng.choice((0, 0, 1, 2))]
+    rng.shuffle(request)
+    return {'text': '\n'.join(lines) + '\n', 'preds': preds, 'request': request,
+            'loops': True, 'excluded': excluded}
+
+
 # ------------------------------------------------------------------ SQL readers/writers
 
 _HDR = re.compile(r'(DROP TABLE IF EXISTS|CREATE TABLE)\s+([A-Za-z_]\w*\.\w+)')
@@ -148,6 +239,17 @@ def check_sql_order(sp, calls):
             elif ids[i] is not None and ids[i] not in it and last_w[t] > i:
                 out.append(('sql_stale_read', 'call %d (%s, not iterated) reads %s which '
                             'is rewritten at call %d' % (i, ids[i], t, last_w[t])))
+            elif ids[i] is not None and ids[i] in it:
+                # a member of an iteration may read a table its OWN group rewrites
+                # later (that is the loop); a table written by a statement outside its
+                # group must have received its last write
+                late = [j for j in range(i + 1, len(io)) if t in io[j][0]
+                        and it.get(ids[j]) != it[ids[i]]]
+                if late:
+                    out.append(('sql_stale_read_iterated', 'call %d (%s, iteration group '
+                                '%s) reads %s which %s, outside that group, rewrites at '
+                                'call %d' % (i, ids[i], sp.groups[it[ids[i]]]['name'], t,
+                                             ids[late[-1]], late[-1])))
     return out
 
 
@@ -261,7 +363,8 @@ def check_program(text, request):
         return o
     sp, r = run_real(exs)
     fails, inc = judge_run(sp, r, '')
-    o.info.update(spec=sp, calls=len(r['calls']), execs=exs)
+    o.info.update(spec=sp, calls=len(r['calls']), execs=exs,
+                  adjacent_dependent=plans.adjacent_dependent(sp, r['calls']))
     if inc:
         o.inconclusive = inc
         return o
@@ -303,6 +406,15 @@ def program_labels(case, o):
         ls.append('B:group_size=%d' % len(g['members']))
         ls.append('B:R=%s' % ('<=10' if g['R'] <= 10 else '11-15' if g['R'] <= 15
                               else '16+'))
+    cross = sorted({(it[q], it[a]) for a, rs in sp.requires.items() if a in it
+                    for q in rs if q in it and it[q] != it[a]})
+    if case.get('loops') or 'mode: "diamond"' in case['text'] or \
+            '\n@Iteration(' in case['text']:
+        ls.append('B:hand_written_iteration')
+    if cross:
+        ls.append('B:group_reads_other_group')
+        if o.info.get('adjacent_dependent'):
+            ls.append('B:group_reads_other_group_adjacent_in_log')
     ls.append('B:request=%d' % len(case['request']))
     if any((p, False) in sp.actions for p in sp.finals):
         ls.append('B:final_and_intermediate')
